@@ -6,7 +6,8 @@
 //   - script: every call of f is gated; the script releases one call at a time (so late indices can
 //     finish first), cancels the caller's context, and after each action the quiescent observation
 //     (calls begun in order with the context state at entry, calls in progress, return value, out) is
-//     (1) fed to the Lean LTS through `driver pardo` (state-set conformance, P <= 3, n <= 6) and
+//     (1) fed to the Lean LTS through `driver pardo` (state-set conformance, P <= 3, n <= 6; Do / DoContext against
+//     the LTS of Model/ParDo.lean, Map / MapContext against the wrapper LTS of Model/ParWrap.lean) and
 //     (2) checked by the monitors written from the property text.
 //   - timed: per-index virtual latencies and scripted failures, n up to 10^4 and P up to 64; monitors only.
 package c13
@@ -113,20 +114,20 @@ type Viol struct {
 }
 
 type env struct {
-	sc        *Scenario
-	mu        sync.Mutex
-	calls     []*call
-	gauge     int
-	maxGauge  int
-	returned  bool
-	retErr    error
-	retOut    []int
-	out       []int // emulated out for do/dc
-	callerCtx context.Context
-	viols     []Viol
-	reqPar    int
-	failTimes []time.Time
-	panicked  interface{}
+	sc                 *Scenario
+	mu                 sync.Mutex
+	calls              []*call
+	gauge              int
+	maxGauge           int
+	returned           bool
+	callerDoneAtReturn bool // the caller's own context was done when the call returned
+	retErr             error
+	retOut             []int
+	callerCtx          context.Context
+	viols              []Viol
+	reqPar             int
+	failTimes          []time.Time
+	panicked           interface{}
 }
 
 func (e *env) viol(kind, what string, params map[string]interface{}) {
@@ -171,7 +172,7 @@ func (e *env) leave(c *call, r gateRes) {
 	if c.ctx != nil && e.sc.Kind == "timed" {
 		for _, ft := range e.failTimes {
 			if ft.Before(c.endTime) && c.ctx.Err() == nil {
-				e.viol("not-cancelled", fmt.Sprintf("call %d ended at %v with a live context although another call had returned an error at %v", c.idx, c.endTime.UnixMilli(), ft.UnixMilli()), nil)
+				e.viol("not-cancelled", fmt.Sprintf("call %d ended at %v with a live context although another call had returned an error at %v", c.idx, c.endTime.UnixMilli(), ft.UnixMilli()), map[string]interface{}{"at": "return-of-call"})
 				break
 			}
 		}
@@ -201,7 +202,6 @@ func (e *env) invoke(ctx context.Context) {
 	for i := range in {
 		in[i] = 1000 + i
 	}
-	e.out = make([]int, sc.N)
 	var err error
 	var out []int
 	switch sc.Mode {
@@ -209,18 +209,12 @@ func (e *env) invoke(ctx context.Context) {
 		parallel.Do(sc.P, sc.N, func(i int) {
 			c := e.enter(nil, i)
 			r := e.body(c)
-			if i >= 0 && i < len(e.out) {
-				e.out[i] = r.v
-			}
 			e.leave(c, r)
 		})
 	case "dc":
 		err = parallel.DoContext(ctx, sc.P, sc.N, func(ctx context.Context, i int) error {
 			c := e.enter(ctx, i)
 			r := e.body(c)
-			if r.err == nil && i >= 0 && i < len(e.out) {
-				e.out[i] = r.v
-			}
 			e.leave(c, r)
 			return r.err
 		})
@@ -241,6 +235,7 @@ func (e *env) invoke(ctx context.Context) {
 	}
 	e.mu.Lock()
 	e.returned = true
+	e.callerDoneAtReturn = e.callerCtx != nil && e.callerCtx.Err() != nil
 	e.retErr = err
 	e.retOut = out
 	if e.gauge != 0 {
@@ -300,23 +295,43 @@ func (e *env) observe() string {
 	out := ""
 	if e.returned {
 		ret = e.errName(e.retErr)
-		if e.retErr == nil {
-			o := e.out
-			if e.sc.Mode == "map" || e.sc.Mode == "mc" {
-				o = e.retOut
+		// the slice Map / MapContext returned (Do / DoContext have none: the callback of the harness is
+		// not part of the code under test)
+		if e.retErr == nil && (e.sc.Mode == "map" || e.sc.Mode == "mc") {
+			if e.retOut == nil {
+				out = "nil"
 			}
 			var parts []string
-			for _, v := range o {
+			for _, v := range e.retOut {
 				if v == 0 {
 					parts = append(parts, "_")
 				} else {
 					parts = append(parts, fmt.Sprint(v))
 				}
 			}
-			out = strings.Join(parts, ",")
+			if e.retOut != nil {
+				out = strings.Join(parts, ",")
+			}
 		}
 	}
-	return fmt.Sprintf("b=[%s] run=[%s] ret=%s out=[%s]", strings.Join(b, ","), strings.Join(run, ","), ret, out)
+	// is the context of the calls in progress cancelled right now (they all hold the same context)
+	cx := "-"
+	if e.sc.ctxMode() {
+		for _, c := range e.calls {
+			if c.ended {
+				continue
+			}
+			v := "0"
+			if c.ctx.Err() != nil {
+				v = "1"
+			}
+			if cx != "-" && cx != v {
+				v = "?"
+			}
+			cx = v
+		}
+	}
+	return fmt.Sprintf("b=[%s] run=[%s] cx=%s ret=%s out=[%s]", strings.Join(b, ","), strings.Join(run, ","), cx, ret, out)
 }
 
 // quiescentMonitors: clauses that can be evaluated at every quiescent point.
@@ -333,7 +348,7 @@ func (e *env) quiescentMonitors() {
 		if failed {
 			for _, c := range e.calls {
 				if !c.ended && c.ctx.Err() == nil {
-					e.viol("not-cancelled", fmt.Sprintf("a call returned an error but the context handed to running call %d is still live at quiescence", c.idx), nil)
+					e.viol("not-cancelled", fmt.Sprintf("a call returned an error but the context handed to running call %d is still live at quiescence", c.idx), map[string]interface{}{"at": "quiescence"})
 					break
 				}
 			}
@@ -352,7 +367,13 @@ func (e *env) finalMonitors() {
 	}
 	count := map[int]int{}
 	anyFail := false
-	callerCancelledSeen := e.callerCtx != nil && e.callerCtx.Err() != nil
+	// the caller's context as it was when the call returned (timed scenarios look at the result a virtual
+	// day later, when the one-hour deadline of the caller's context has passed in any case); a call that
+	// panicked out or never returned: as it is now
+	callerCancelledSeen := e.callerDoneAtReturn
+	if e.panicked != nil {
+		callerCancelledSeen = e.callerCtx != nil && e.callerCtx.Err() != nil
+	}
 	startedCancelled := 0
 	for _, c := range e.calls {
 		count[c.idx]++
@@ -553,11 +574,11 @@ func (e *env) bubble(t *testing.T, sc *Scenario, r *vlib.Rand, maxSteps int, out
 			return
 		}
 		// script
+		// Map / MapContext are checked against the wrapper model (`init map|mapctx`), whose observation
+		// goes through the regenerated wrapper facts (index expressions, context handed to f, result slice)
 		mode := sc.Mode
-		if mode == "map" {
-			mode = "do"
-		} else if mode == "mc" {
-			mode = "dc"
+		if mode == "mc" {
+			mode = "mapctx"
 		}
 		synctest.Wait()
 		out.Lines = append(out.Lines, fmt.Sprintf("init %s %d %d %d", mode, sc.P, sc.N, gmp), "obs "+e.observe())
@@ -953,6 +974,41 @@ func directedSequential() []Scenario {
 	return out
 }
 
+// directedCancelOthers: "if any call fails, cancel the context handed to the others" on the parallel path,
+// as scripts (every call of f gated, conformance with the LTS / the wrapper LTS, the quiescent
+// `not-cancelled` monitor): with parallelism p, p calls are parked inside f; `pre` of them return a value
+// first (so that later indices are in progress), then call k fails while the others are still parked in f
+// holding the context they were handed - at the next quiescent point each of them has to find that
+// context cancelled. Afterwards the parked calls are released (the drain of the script runner). For
+// MapContext the context in question is the one the wrapper's callback hands to the user's f.
+func directedCancelOthers() []Scenario {
+	var out []Scenario
+	for _, mode := range []string{"mc", "dc"} {
+		for _, pn := range [][3]int{{2, 2, 0}, {2, 3, 0}, {2, 4, 0}, {3, 3, 0}, {3, 5, 0}, {0, 3, 2}, {-1, 4, 3}, {5, 3, 0}} {
+			p, n, gmp := pn[0], pn[1], pn[2]
+			eff := p
+			if p <= 0 {
+				eff = gmp
+			}
+			if eff > n {
+				eff = n
+			}
+			for pre := 0; pre <= 1 && pre+eff <= n; pre++ {
+				// after `pre` successful returns of call 0.., the calls in progress are pre .. pre+eff-1
+				for k := pre; k < pre+eff; k++ {
+					sc := Scenario{Kind: "script", Mode: mode, P: p, N: n, Gmp: gmp}
+					for i := 0; i < pre; i++ {
+						sc.Steps = append(sc.Steps, Step{Op: "ok", I: i, V: 100 + i})
+					}
+					sc.Steps = append(sc.Steps, Step{Op: "err", I: k, V: k + 1})
+					out = append(out, sc)
+				}
+			}
+		}
+	}
+	return out
+}
+
 func TestVerif(t *testing.T) {
 	env := vlib.GetEnv()
 	res := vlib.NewResult("C13", "script scenarios (every call of f gated, released one at a time in random/late-first order, with failures "+
@@ -1041,6 +1097,13 @@ func TestVerif(t *testing.T) {
 		if sc.CancelAt < 0 {
 			res.Count("directed-sequential-already-cancelled")
 		}
+		o := check(t, &sc, nil, m, res)
+		res.Case(sc.key(), nontrivial(&sc, o), nil)
+	}
+	// a call fails while the others are parked in f: they must find their context cancelled
+	for _, sc := range directedCancelOthers() {
+		sc := sc
+		res.Count("directed-cancel-others-" + sc.Mode)
 		o := check(t, &sc, nil, m, res)
 		res.Case(sc.key(), nontrivial(&sc, o), nil)
 	}
